@@ -597,6 +597,22 @@ fn phase_reject(ctx: &Ctx, rep: &Report) {
                 let mut b = base.clone();
                 b[rec..rec + 4].copy_from_slice(&i32::MIN.to_be_bytes());
                 expect_reject(&mut loc, "utoff-i32-min", b_utoff, &b, b_alloc);
+                // the same for other offsets of a day or more, on a type with its designation and on a
+                // type whose designation index points at a NUL (empty designation)
+                let nul_at = (0..l.n_char).find(|k| base[l.chars + *k] == 0);
+                for off in [86_400i32, -86_400, 100_000, i32::MAX] {
+                    for unnamed in [false, true] {
+                        let mut b = base.clone();
+                        b[rec..rec + 4].copy_from_slice(&off.to_be_bytes());
+                        if unnamed {
+                            match nul_at {
+                                Some(k) if k < 256 => b[rec + 5] = k as u8,
+                                _ => continue,
+                            }
+                        }
+                        expect_reject(&mut loc, if unnamed { "utoff-a-day-or-more/empty-designation" } else { "utoff-a-day-or-more" }, b_utoff, &b, b_alloc);
+                    }
+                }
             }
             // l. footer; m. trailing bytes after a v1 block
             if version >= 2 {
@@ -617,6 +633,8 @@ fn phase_reject(ctx: &Ctx, rep: &Report) {
                 bad.push(mk(b"\nEST5EDT,M3.2.0\n"));
                 bad.push(mk(b"\nEST25\n"));
                 bad.push(mk(b"\n\xff\xfe\n"));
+                bad.push(mk(b"\n<A,B>5\n"));
+                bad.push(mk(b"\nEST5:00:75\n"));
                 bad.push(mk(b""));
                 for (k, b) in bad.into_iter().enumerate() {
                     if k == 1 && body.is_empty() {
@@ -641,6 +659,10 @@ fn phase_reject(ctx: &Ctx, rep: &Report) {
             "EST5EDT,M3.6.0,M11.1.0", "EST5EDT,M3.2.7,M11.1.0", "EST5EDT,J0,J300", "EST5EDT,J366,J300", "EST5EDT,366,100", "EST5EDT,M3.2.0,M11.1.0x", "EST5EDT,M3.2.0,M11.1.0,M1.1.1",
             "EST5EDT,M3.2.0/25,M11.1.0", "EST5EDT,M3.2.0/2:60,M11.1.0", "<EST5EDT,M3.2.0,M11.1.0", "EST5EDT,M3.2,M11.1.0", "EST5EDT,M3.2.0;M11.1.0", "EST5EDT4,,", "EST+", "EST-", "EST5EDT,J,J300",
             "E5", "ES5", "EST5ED,M3.2.0,M11.1.0", "<ab>5", "<abcdefgh>5", "EST5EDT,M3.2.0,M11.1.0/-1",
+            // designations may contain only alphanumerics, '+' and '-'
+            "<A,B>1:02:03", "<A.B>5", "<A B>5", "<A!B>5", "<A/B>5", "<A*B>5", "<AB\u{e9}>5", "<A,B>5<C,D>,M3.2.0,M11.1.0",
+            // every field of an offset is range-checked
+            "EST5:00:75", "EST5:75:00", "EST5:00:99", "EST5EDT4:00:61,M3.2.0,M11.1.0",
         ];
         for s in bad {
             loc.eval();
@@ -1048,7 +1070,7 @@ pub fn run(ctx: &Ctx) -> Outcome {
     let _ = Tier::Quick;
     rep.finish(
         ctx,
-        "accept: TZif files written by the reference writer from random conforming models (v1-v3, 0-3000 transitions, 1-255 types, indicators, leap records, footer absent/empty/fixed/alternate, minimal or full v1 block) and TZ strings printed from random rule models must be accepted with a structural dump equal to the model; every system zoneinfo file likewise (vs the reference reader). reject: per valid base file every truncation, magic/version change, each header count changed (confirmed invalid by the strict reference reader), swapped/equal transitions, out-of-bounds type/abbreviation indices, missing NUL, isdst/utoff out of domain, malformed footers, trailing bytes after v1; 34 invalid TZ strings. survive: random bytes, 1-4 random edits of valid files (bit flips, extremes in aligned u32/i64 fields, insert/delete/truncate), random and mutated TZ strings, header-count extremes in child processes; every call under the panic monitor and the counting allocator (peak live bytes <= 64*len + 64 KiB). Zones accepted along the way and hostile-but-valid zones (i64-extreme transition times, offsets beyond 24 h, 65536 transitions, edge footers) are queried through the hook and through chrono::Local in child processes. Non-trivial: every generated input (all are distinct by content hash)",
+        "accept: TZif files written by the reference writer from random conforming models (v1-v3, 0-3000 transitions, 1-255 types, indicators, leap records, footer absent/empty/fixed/alternate, minimal or full v1 block) and TZ strings printed from random rule models must be accepted with a structural dump equal to the model; every system zoneinfo file likewise (vs the reference reader). reject: per valid base file every truncation, magic/version change, each header count changed (confirmed invalid by the strict reference reader), swapped/equal transitions, out-of-bounds type/abbreviation indices, missing NUL, isdst/utoff out of domain, malformed footers, trailing bytes after v1; 46 invalid TZ strings. survive: random bytes, 1-4 random edits of valid files (bit flips, extremes in aligned u32/i64 fields, insert/delete/truncate), random and mutated TZ strings, header-count extremes in child processes; every call under the panic monitor and the counting allocator (peak live bytes <= 64*len + 64 KiB). Zones accepted along the way and hostile-but-valid zones (i64-extreme transition times, offsets beyond 24 h, 65536 transitions, edge footers) are queried through the hook and through chrono::Local in child processes. Non-trivial: every generated input (all are distinct by content hash)",
         &["R-tz writer/reader/POSIX model (self-tested each run)", "a mutated file that is coincidentally still well-formed for the strict reference reader is not expected to be rejected", "version byte '4' is not judged"],
     )
 }
